@@ -180,4 +180,46 @@ def runA (store : IGraphA → IGraphA) (x : NetA) : List OpA → Except Err NetA
     | .ok x' => runA store x' ops
     | .error e => .error e
 
+/-! ### subclasses whose constructors derive the adjacency matrix and then run
+`GeoNetwork.__init__` / `Network.__init__` (i.e. the adjacency setter and the weight setter) -/
+
+def ratAbs (q : Rat) : Rat := if q < 0 then -q else q
+
+/-- `ClimateNetwork._calculate_threshold_adjacency` applied to `np.abs(similarity)`
+(climate_network.py): `A[similarity > threshold] = 1` then `A.flat[::N+1] = 0` -/
+def thresholdMat (sim : Nat → Nat → Rat) (thr : Rat) (i j : Nat) : Int :=
+  if i == j then 0 else if thr < ratAbs (sim i j) then 1 else 0
+
+/-- `ClimateNetwork.__init__(grid, similarity, threshold=…)` and, on a live object,
+`set_threshold(…)` (`non_local=False`): `GeoNetwork.__init__` on the thresholded matrix —
+every field of the object is assigned anew, so nothing of an earlier state survives -/
+def climateInit (d : Bool) (N : Nat) (sim : Nat → Nat → Rat) (thr : Rat) (cosLat : List Rat)
+    (wtype : Nat) : Except Err Net :=
+  geoInit d (.sparse (ofDenseMat N N (thresholdMat sim thr))) cosLat wtype
+
+/-- `CoupledClimateNetwork.__init__`: `ClimateNetwork.__init__`, then
+`InteractingNetworks.__init__(self, self.adjacency, directed=self.directed,
+node_weights=self.node_weights)`, i.e. `Network.__init__` once more on the result -/
+def coupledInit (d : Bool) (N : Nat) (sim : Nat → Nat → Rat) (thr : Rat) (cosLat : List Rat)
+    (wtype : Nat) : Except Err Net := do
+  let net ← climateInit d N sim thr cosLat wtype
+  init net.directed (.sparse net.sparse) (some net.w)
+
+/-- scalar series: `recurrence[distance < threshold] = 1` (`RecurrencePlot.set_fixed_threshold`),
+`A = self.R.copy(); A.flat[::self.N+1] = 0` (`RecurrenceNetwork`); every metric is
+`|x_i − x_j|` on a scalar series.  (Indices are below `x.length` wherever the matrix is read.) -/
+def recurrenceMat (x : List Rat) (eps : Rat) (i j : Nat) : Int :=
+  if i == j then 0 else if ratAbs (x.getD i 0 - x.getD j 0) < eps then 1 else 0
+
+/-- `RecurrenceNetwork(x, threshold=eps, node_weights=w)` and `set_fixed_threshold(eps)`
+(then `w = None`): `Network.__init__(A, directed=False, node_weights=w)` -/
+def recurrenceInit (x : List Rat) (eps : Rat) (w : Option (List Rat)) : Except Err Net :=
+  init false (.sparse (ofDenseMat x.length x.length (recurrenceMat x eps))) w
+
+/-- `ResNetwork.__init__` without `adjacency`: `adjacency[resistances != 0] = 1` -/
+def resMat (R : Nat → Nat → Rat) (i j : Nat) : Int := if R i j != 0 then 1 else 0
+
+def resInit (N : Nat) (R : Nat → Nat → Rat) (cosLat : List Rat) (wtype : Nat) : Except Err Net :=
+  geoInit false (.sparse (ofDenseMat N N (resMat R))) cosLat wtype
+
 end Pyunicorn.Repr
